@@ -116,12 +116,14 @@ static const char *content_tag(const Hay &H, const std::string &eff, bool eff_fr
 struct Cfg {
     std::vector<size_t> extremes;  // positions far beyond the end
     bool all_forms_every_pos;      // secondary forms at every start/limit (otherwise only at four positions)
+    bool sparse = false;           // very long haystacks: positions next to both ends only
 };
 
 static void positions(size_t len, const Cfg &cfg, std::vector<size_t> &out)
 {
     out.clear();
-    for (size_t i = 0; i <= len + 2; ++i) out.push_back(i);
+    for (size_t i = 0; i <= len + 2; ++i)
+        if (!cfg.sparse || i <= 3 || i + 4 >= len) out.push_back(i);
     for (size_t e : cfg.extremes) out.push_back(e);
 }
 
@@ -542,6 +544,26 @@ static void build(vf::Plan &plan, const vf::Opts &o)
                                   return strf("haystack %s needle %s", show(hay).c_str(), show(needle).c_str());
                               });
         st.case_timeout_s = 10;
+    }
+
+    {
+        auto cases = std::make_shared<std::vector<lp::LN>>(lp::cases_very_long());
+        auto &st = plan.stage("very long needles: lengths {255,256,257,258,300,1030}, one byte perturbed at positions next to the ends, the middle and 254..257",
+                              cases->size(),
+                              [cases, EXT_LIGHT](uint64_t i, Ctx &c) {
+                                  std::string hay, needle;
+                                  lp::make((*cases)[i], hay, needle);
+                                  Cfg cfg{EXT_LIGHT, false};
+                                  cfg.sparse = true;
+                                  check_case(c, make_hay(hay), make_needle(needle), cfg);
+                                  c.nontrivial();
+                              },
+                              [cases](uint64_t i) {
+                                  std::string hay, needle;
+                                  lp::make((*cases)[i], hay, needle);
+                                  return strf("haystack %s needle %s", show(hay).c_str(), show(needle).c_str());
+                              });
+        st.case_timeout_s = 20;
     }
 
     // ---- complete fold sweep
